@@ -102,6 +102,14 @@ func gossipRuns(id, tier string) []gRun {
 					out = append(out, gRun{fmt.Sprintf("%s/origin=%s/adv=%s/%s", t, origin, adv, it),
 						gnet.Cfg{Nodes: topoNodes[t], Edges: topologies[t], Origin: origin, Items: it, Adversary: adv, Masks: masks, Prop: "C12"}, 40})
 				}
+				// bait: before relaying, the adversary may send a neighbour a vertex of its own that names the item's hash as
+				// parent, and later present the signature of the neighbour's parent-fetch request as a gossiper entry
+				if t == "triangle" || t == "paw4" || (t == "cycle4" && tier == "thorough") {
+					for _, it := range []string{"vertex", "trx"} {
+						out = append(out, gRun{fmt.Sprintf("%s/origin=%s/adv=%s/%s+bait", t, origin, adv, it),
+							gnet.Cfg{Nodes: topoNodes[t], Edges: topologies[t], Origin: origin, Items: it, Adversary: adv, Masks: []int{0, 128}, Bait: true, Prop: "C12"}, 40})
+					}
+				}
 				// two items in a row: the adversary may replay, on the second item, genuine entries it has seen on the first
 				if t == "triangle" || t == "cycle4" {
 					out = append(out, gRun{fmt.Sprintf("%s/origin=%s/adv=%s/two-vertices+replay", t, origin, adv),
